@@ -117,4 +117,15 @@ PROPS["C08"] = {
     "assumptions": ["the statement is still in the proxy's prepared cache", "re-prepare PREPAREs are answered or their connection dropped"],
 }
 
+PROPS["C14"] = {
+    "module": "CqlVerif.Props.C14",
+    "streams": [{"name": "events", "quick": 600, "thorough": 20000}],
+    "shrink": False,
+    "claim": "Lean theorems registry_inv, fanout_exact, no_topology_forward, disconnect_isolated, register_other_types over Model/Events for every history of connect/register(any subset)/disconnect/events/control-connection failover; tied to proxy.go/cluster.go by the events e2e stream (fakecass injects events on the control connection; clients log EVENT frames: stream -1, content, order)",
+    "note": "trusted: Lean kernel, hand-written model + e2e correspondence (sequentialised histories); events emitted while no control connection exists are outside the statement; the EVENT frame carries the cluster's negotiated version, not the client's (recorded, not judged)",
+    "rule": "events: 1-4 clients, histories of up to 17 actions: connect, REGISTER for any subset of the three event types, disconnect, schema events of all five targets, topology and status events, control-connection drops followed by fail-over; compared: per client the ordered list of event ids received; distinct = distinct histories",
+    "trusted_base": [KERNEL, DRIVER, HARNESS, "Model/Events.lean hand-written"],
+    "assumptions": ["a disconnect has been noticed by the proxy before the next event (the harness waits 15 ms)"],
+}
+
 NOT_APPLICABLE = {}
